@@ -117,8 +117,18 @@ def make_inputs(kit, rng, ndims, big=True):
     fb = shared + ["b%d" % i for i in range(rng.randint(1, 6 if big else 3))]
     rng.shuffle(fb)
     cfg_ = gamma.Config.draw(rng, ndims=ndims, payload="tame")
+    rel = rng.choice(["independent", "independent", "same", "same-files"])
+    lays_a = None
     for src, fields in (("A", fa), ("B", fb)):
         lays = [rand_layout(rng, len(c), 12 if big else 3) for c in classes]
+        if src == "A":
+            lays_a = lays
+        elif rel == "same":
+            lays = [dict(file=list(L["file"]), disk={f: list(v) for f, v in L["disk"].items()}) for L in lays_a]
+        elif rel == "same-files":
+            # the same boxes in the same binary files, stored in another order at some of the levels
+            lays = [dict(file=list(L["file"]), disk={f: (rng.sample(v, len(v)) if rng.random() < 0.5 else list(v)) for f, v in L["disk"].items()})
+                    for L in lays_a]
         ap = gamma.make_ap(src, fields, classes, lays, ndims=ndims, time=cfg_.time)
         gamma.write_plotfile(kit.path(src), ap, cfg_, gamma.Registry())
     return {"A": fa, "B": fb}
